@@ -235,20 +235,20 @@ ADDENDA = {
     "C01": "CFG shapes include three-way branches, a block that is its own successor and an exit on the third port; every other constant is built from one-shot iterables; output 0 of a node is handed over as the Node itself every third time; tuples for Sequence parameters. Every other tracked circuit is default-constructed and tracks its inputs afterwards; wires also as bare Wire-protocol objects. CFG shapes in which two successor ports of one block lead to the same block (twin, twin-loop, twin-exit).",
     "C02": "After all comparisons the HUGR is changed (node, self links, metadata, a link removed) and the whole comparison runs again: nothing remembered from an earlier serialization may survive. Histories are interrupted by pure queries (serialization, rendering, port queries) after every second step and at explicit probe steps (delete, serialize, re-use, delete elsewhere). Sparse-survivor histories (most nodes deleted, nothing re-used); opaque spellings of prelude types.",
     "C03": "The port-address oracle also runs on HUGRs with control-flow edges; argument positions and the function port of calls are checked against what the program's statements asked for (recorded by the interpreter, not read back from the HUGR). Hand-typed operations added through the plain graph API with some of their value ports connected and order links on both sides; serializations in the middle of histories. Sparse-survivor histories; a node created with more output ports than its operation has. A zero-output operation planted with surplus output ports ahead of an order edge (the order edge sits at offset 0). Deletion histories beside a function-valued constant (nested serialization).",
-    "C04": "Further queries: nodes(), keys / values / items, num_ports, root_op, containment, lookups of absent and freed indices; listings add up duplicates; store calls receive the node in five spellings (returned handle, bare Node, iteration handle, children() handle, handle with other extras); an index handed out while live is reported as a finding. The node also as a bare ToNode implementation; parents must come back as Nodes.",
-    "C05": "Definition-backed extension ops have an independent expected document (incl. the definition's description); negative integers; foreign documents with metadata arrays that cover only the leading nodes, [] or no key. Definition-backed ops over monomorphic definitions (own signature with further requirements, or none); names of custom operations and declarations from pools (qualified with their own extension, padded, dotted). Function values encoded, their body changed in place, encoded again. User data (metadata, custom-constant payloads) with keys that spell the format's own field names.",
-    "C06": "Sugar sum type objects as the sum of Conditional / DataflowBlock / Tag; port queries on recycled indices and after every step of mutation histories whose operations have rotating port types. Callees without type parameters given no instantiation, the body spelled again, or a foreign function type. Scenario declared-poly: function port, call ports and loaded type of a polymorphic function whose outputs are declared up front. CallIndirect over callees whose function type carries runtime requirements: the prepended type is the whole function type.",
+    "C04": "Further queries: nodes(), keys / values / items, num_ports, root_op, containment, lookups of absent and freed indices; listings add up duplicates; store calls receive the node in five spellings (returned handle, bare Node, iteration handle, children() handle, handle with other extras); an index handed out while live is reported as a finding. The node also as a bare ToNode implementation; parents must come back as Nodes. Histories put several links on one input port of a node just before deleting it.",
+    "C05": "Definition-backed extension ops have an independent expected document (incl. the definition's description); negative integers; foreign documents with metadata arrays that cover only the leading nodes, [] or no key. Definition-backed ops over monomorphic definitions (own signature with further requirements, or none); names of custom operations and declarations from pools (qualified with their own extension, padded, dotted). Function values encoded, their body changed in place, encoded again. User data (metadata, custom-constant payloads) with keys that spell the format's own field names. Loaded foreign HUGRs are annotated after they were judged (nothing may leak into documents loaded later).",
+    "C06": "Sugar sum type objects as the sum of Conditional / DataflowBlock / Tag; port queries on recycled indices and after every step of mutation histories whose operations have rotating port types. Callees without type parameters given no instantiation, the body spelled again, or a foreign function type. Scenario declared-poly: function port, call ports and loaded type of a polymorphic function whose outputs are declared up front. CallIndirect over callees whose function type carries runtime requirements: the prepended type is the whole function type. Tail loops whose body outputs are set two or three times with other Break rows.",
     "C07": "Row variables inside rows; polymorphic function types. A linear argument at a named, copyable-declared position (refused, or the type is Any); the same argument at two positions. From-params index lists that also name non-type positions (skipped, the later type positions still count).",
     "C08": "Port counts of A's old nodes; B with re-used indices inserted into A with several freed indices. Receiving builders that are basic blocks with dominator wires or nested regions with non-local wires; the parent given as a bare ToNode implementation.",
     "C09": "Every round trip is followed by failing decodes (cut in header / payload, flipped byte, other magic) after each of which the valid envelope must decode again; malformed text input; the default configuration's header judged against its payload; one configuration object re-used for level after level; the package changed after encoding and encoded again. to_str under a compressing configuration (refused, or a faithful envelope); two different extensions of one name in a package. Modules carry a node naming a shipped operation with its own description and signature.",
     "C10": "Every other generated extension is serialized after each single addition while it is being built. Extensions that require themselves; operations defined again under a name already held; loaded std extensions and the module-level objects against the source documents field by field; register_op. A loaded copy annotated in place leaves other operations and other loaded copies as they were. Operation signatures with a requirement named twice.",
-    "C11": "Every other type expression is resolved a second time against another registry (opaque types inside definition-backed types); the description licence is judged exactly (original or the definition's). Function types whose output row equals the input row without being spelled the same.",
-    "C12": "The kind of every exported node (containers keep their kind, custom operations are named after extension and operation, tags carry their tag); Package.to_model; the HUGR changed after export and exported again. Metadata records replaced as a whole before the second export. Bodies of function-valued constants changed (metadata, a node added) between two exports of the same module.",
-    "C13": "Refused wires are offered through six entry points; five more kinds of incomplete operations incl. add_if without add_else; all three serialization routes. Also insert_nested / insert_cfg / insert_tail_loop as entry points (nine in all, chosen by a proper hash). Output rows that differ only in type arguments are also offered to polymorphic definitions, declared before or after.",
-    "C14": "Negative integers, more unit-sum sizes, sugar objects as declared sum types, bool_value, default width; one Const node whose value is exchanged after its type was asked for (const-replaced). Equal sub-values as one object. Integers at and just beyond the edges of every width (inhabit, or refused). A value obtained from a helper is edited in place before the helper is called again (helpers share nothing with what they handed out).",
-    "C15": "Indices naming freed holes, untracked indices in set_indexed_outputs, one copyable index at two positions, the explicit side through add(Command), track_wires given lists / tuples / generators. Every index given up before set_tracked_outputs (a root left incomplete on one side only is a difference). Indices given as IntEnum members and bools (ints by subclass). track_wires given a node handle (one index per output).",
+    "C11": "Every other type expression is resolved a second time against another registry (opaque types inside definition-backed types); the description licence is judged exactly (original or the definition's). Function types whose output row equals the input row without being spelled the same. Registry-defined operations with phantom type arguments (nothing to resolve in the signature).",
+    "C12": "The kind of every exported node (containers keep their kind, custom operations are named after extension and operation, tags carry their tag); Package.to_model; the HUGR changed after export and exported again. Metadata records replaced as a whole before the second export. Bodies of function-valued constants changed (metadata, a node added) between two exports of the same module. Metadata keys in the model's own namespaces (core., compat.).",
+    "C13": "Refused wires are offered through six entry points; five more kinds of incomplete operations incl. add_if without add_else; all three serialization routes. Also insert_nested / insert_cfg / insert_tail_loop as entry points (nine in all, chosen by a proper hash). Output rows that differ only in type arguments are also offered to polymorphic definitions, declared before or after. add_case asked again while the first builder is still open.",
+    "C14": "Negative integers, more unit-sum sizes, sugar objects as declared sum types, bool_value, default width; one Const node whose value is exchanged after its type was asked for (const-replaced). Equal sub-values as one object. Integers at and just beyond the edges of every width (inhabit, or refused). A value obtained from a helper is edited in place before the helper is called again (helpers share nothing with what they handed out). bool_value of true / false things that are not the bool singletons.",
+    "C15": "Indices naming freed holes, untracked indices in set_indexed_outputs, one copyable index at two positions, the explicit side through add(Command), track_wires given lists / tuples / generators. Every index given up before set_tracked_outputs (a root left incomplete on one side only is a difference). Indices given as IntEnum members and bools (ints by subclass). track_wires given a node handle (one index per output). Explicit wires that merely implement the Wire protocol.",
     "C16": "Explicit count differing from the op's own; count-less handle on a recycled index; CFG / if-else scenarios with other output counts, both exit entry points; an output port of an open container linked and unlinked before its outputs are set. Counts given together with metadata; inserted builders whose root carries metadata.",
-    "C17": "Mutation operator retype: a value of another JSON type at any position (position classes visited least-mutated-first, replacement kinds in turn; scalar-for-scalar swaps judged under the strict configuration only). Position classes of retype follow the models; a zoo type with every kind of type argument; monitor default-agreement: for every published property default the key is removed from corpus documents and what the decoder fills in is compared with the published default. Extension documents with fixed lowerings. Strings padded with white space (refused by both formalisms where the schema constrains the string, taken as they are elsewhere). Retype also transplants a well-formed object of another model from elsewhere in the same document.",
+    "C17": "Mutation operator retype: a value of another JSON type at any position (position classes visited least-mutated-first, replacement kinds in turn; scalar-for-scalar swaps judged under the strict configuration only). Position classes of retype follow the models; a zoo type with every kind of type argument; monitor default-agreement: for every published property default the key is removed from corpus documents and what the decoder fills in is compared with the published default. Extension documents with fixed lowerings. Strings padded with white space (refused by both formalisms where the schema constrains the string, taken as they are elsewhere). Retype also transplants a well-formed object of another model from elsewhere in the same document. Integers replaced by fractional numbers.",
     "C18": "Blind histories (nothing read between mutators, before the invariant walk is attached); the inherited mapping surface; histories starting from constructed maps; constructor from equal-not-identical objects, proxies, UserDict, keyword. Constructor arguments also defaultdict / OrderedDict.",
     "C19": "as_dict; constructor iterables and caller-side edits; defaults of register_counts; zero-shot results; a result changed and asked again; key shape of collated counts; collated shots without truncation; more tag shapes. Equal list values of a shot as one object. Float twins of a shot: a multi-shot call is refused exactly when some shot alone is refused. Tuples among the values that are not bits.",
     "C20": "Every rendering is read by Graphviz itself (nop: graph syntax; dot on the node statements alone: HTML-like labels) and a sample is stored with store_dot / DotRenderer.store; cluster count; re-render after the HUGR changed; smallest shapes; HTML-special characters in names and metadata. Hugr.render_dot asked twice with a count-preserving change in between (metadata edited, two links' targets exchanged).",
